@@ -676,6 +676,12 @@ def _dispatch_monitor(case: Case, out: list[str]):
 
 
 def replay_witness(w: dict) -> Optional[str]:
+    if w.get("kind") == "make_hashable_set_order":
+        # known_findings.txt format: two equal sets given by the insertion order of their (int) elements
+        a = ",".join([f"i{x}" for x in w["a"]] + [f"S{len(w['a'])}"])
+        b = ",".join([f"i{x}" for x in w["b"]] + [f"S{len(w['b'])}"])
+        case = Case("cfg helper=make_hashable", [f"mh a={a} b={b}"], {"component": "make_hashable"}, "witness")
+        return mh_monitor(case, mh_impl(case))
     if w.get("helper") == "make_hashable":
         case = Case("cfg helper=make_hashable", [f"mh a={w['a']} b={w['b']}"], {"component": "make_hashable"}, "witness")
         return mh_monitor(case, mh_impl(case))
